@@ -73,11 +73,11 @@ Proof.
 Qed.
 
 Lemma nth_split_upd (o' : sobj) : forall objs i o, nth_error objs i = Some o ->
-  exists pre post, objs = pre ++ o :: post /\ upd i o' objs = pre ++ o' :: post.
+  exists pre post, objs = pre ++ o :: post /\ upd_obj i o' objs = pre ++ o' :: post.
 Proof.
   induction objs as [|x objs IH]; intros i o H; [destruct i; discriminate H|]. destruct i as [|i].
   - cbn in H. inversion H. subst x. exists [], objs. split; reflexivity.
-  - cbn in H. destruct (IH i o H) as [pre [post [E U]]]. exists (x :: pre), post. cbn [upd app]. rewrite <- E, U. split; reflexivity.
+  - cbn in H. destruct (IH i o H) as [pre [post [E U]]]. exists (x :: pre), post. cbn [upd_obj app]. rewrite <- E, U. split; reflexivity.
 Qed.
 Lemma pinv_step p ip : pinv p -> pinv (pstep p ip).
 Proof.
